@@ -158,6 +158,206 @@ def _template_fixed_names(rel, problems):
     return fixed, ntemplates
 
 
+
+# ------------------------------------------------------------------------------------------------
+# EVERY site that introduces a name into generated code (growth round): templates (hard-coded identifiers and
+# placeholders in binding position), parser.parse_expression/parse_str literals, direct ast.Name/arg/... constructions
+# ------------------------------------------------------------------------------------------------
+_AST_CTORS = ('Name', 'arg', 'Global', 'Nonlocal', 'alias', 'FunctionDef', 'ClassDef', 'Lambda')
+
+
+def _is_new_symbol(e):
+    return isinstance(e, ast.Call) and isinstance(e.func, ast.Attribute) and e.func.attr == 'new_symbol'
+
+
+class _FileCtx(object):
+    """Per-file resolution of where a value comes from: namer / namerState / passedIn / hard / other."""
+
+    def __init__(self, rel):
+        self.rel = rel
+        self.tree = ast.parse(_read(rel))
+        self.fns = _functions(self.tree)
+        # attributes assigned (anywhere in the file) from a namer-derived value: `fn.do_return_var_name = <namer name>`
+        self.namer_attrs = set()
+        changed = True
+        while changed:
+            changed = False
+            for q, fn in self.fns:
+                for n in ast.walk(fn):
+                    if isinstance(n, ast.Assign) and len(n.targets) == 1 and isinstance(n.targets[0], ast.Attribute):
+                        k = self.classify(n.value, fn, n.lineno, depth=0)[0]
+                        if k in ('namer', 'namerState') and n.targets[0].attr not in self.namer_attrs:
+                            self.namer_attrs.add(n.targets[0].attr)
+                            changed = True
+                    if isinstance(n, ast.Call) and isinstance(n.func, ast.Attribute) and n.func.attr == 'setanno' and len(n.args) == 3 \
+                            and isinstance(n.args[1], ast.Constant) and isinstance(n.args[1].value, str):
+                        k = self.classify(n.args[2], fn, n.lineno, depth=0)[0]
+                        if k in ('namer', 'namerState') and n.args[1].value not in self.namer_attrs:
+                            self.namer_attrs.add(n.args[1].value)
+                            changed = True
+
+    def owner(self, lineno):
+        best = None
+        for q, fn in self.fns:
+            if fn.lineno <= lineno <= getattr(fn, 'end_lineno', fn.lineno):
+                best = (q, fn)
+        return best
+
+    def classify(self, e, fn, lineno, depth=0):
+        """(kind, text). kind in namer | namerState | passedIn | hard:<name> | other"""
+        text = ast.unparse(e)
+        if _is_new_symbol(e):
+            return 'namer', text
+        if isinstance(e, ast.Constant) and isinstance(e.value, str):
+            return 'hard:' + e.value, text
+        if isinstance(e, ast.Call) and isinstance(e.func, ast.Attribute) and e.func.attr == 'Constant' and e.args:
+            return 'literal', text                      # ast.Constant(<str>): a string VALUE in generated code, not an identifier
+        if isinstance(e, ast.Attribute) and e.attr in self.namer_attrs:
+            return 'namerState', text
+        if isinstance(e, ast.Call) and isinstance(e.func, ast.Attribute) and e.func.attr == 'getanno' and len(e.args) >= 2 \
+                and isinstance(e.args[1], ast.Constant) and e.args[1].value in self.namer_attrs:
+            return 'namerState', text
+        if isinstance(e, ast.Name) and fn is not None:
+            assigns = [n for n in ast.walk(fn) if isinstance(n, ast.Assign) and len(n.targets) == 1
+                       and isinstance(n.targets[0], ast.Name) and n.targets[0].id == e.id and n.lineno < lineno]
+            if assigns:
+                kinds = {self.classify(a.value, fn, a.lineno, depth)[0] for a in assigns}
+                if len(kinds) == 1:
+                    return kinds.pop(), text
+                if kinds <= {'namer', 'namerState'}:
+                    return 'namer', text
+                return 'other', text + ' := ' + ' | '.join(sorted(ast.unparse(a.value) for a in assigns))
+            params = [a.arg for a in fn.args.posonlyargs + fn.args.args + fn.args.kwonlyargs]
+            if e.id in params and depth < 2:
+                # a helper's parameter: look at every call of the helper in this file
+                idx = params.index(e.id) - (1 if params and params[0] == 'self' else 0)
+                kinds = set()
+                for q2, fn2 in self.fns:
+                    for c in ast.walk(fn2):
+                        if isinstance(c, ast.Call) and ((isinstance(c.func, ast.Attribute) and c.func.attr == fn.name)
+                                                        or (isinstance(c.func, ast.Name) and c.func.id == fn.name)):
+                            if self.owner(c.lineno) is None or self.owner(c.lineno)[1] is not fn2:
+                                continue
+                            arg = None
+                            if 0 <= idx < len(c.args):
+                                arg = c.args[idx]
+                            for k in c.keywords:
+                                if k.arg == e.id:
+                                    arg = k.value
+                            if arg is not None:
+                                kinds.add(self.classify(arg, fn2, c.lineno, depth + 1)[0])
+                if kinds and kinds <= {'namer', 'namerState'}:
+                    return 'namer', text
+                if kinds and len(kinds) == 1:
+                    return kinds.pop(), text
+                return 'passedIn', text
+        return 'other', text
+
+
+def _template_positions(src, kws):
+    """For a template: hard-coded identifiers -> how they occur; placeholders in binding position."""
+    t = ast.parse(textwrap.dedent(src))
+    hard, binders = {}, set()
+
+    def note(name, how):
+        if name in kws:
+            if how == 'binds':
+                binders.add(name)
+        else:
+            hard.setdefault(name, set()).add(how)
+    for n in ast.walk(t):
+        if isinstance(n, ast.Name):
+            note(n.id, 'binds' if isinstance(n.ctx, (ast.Store, ast.Del)) else 'reads')
+        elif isinstance(n, ast.arg):
+            note(n.arg, 'binds')
+        elif isinstance(n, (ast.FunctionDef, ast.ClassDef)):
+            note(n.name, 'binds')
+        elif isinstance(n, (ast.Global, ast.Nonlocal)):
+            for x in n.names:
+                note(x, 'binds')
+    return hard, binders
+
+
+def _intro_sites(rel, problems):
+    """Rows (file, func, name, how, via, text) for one source file."""
+    fc = _FileCtx(rel)
+    base = rel[len('malt/'):] if rel.startswith('malt/') else rel
+    rows = set()
+    for q, fn in fc.fns:
+        nodes = sorted([n for n in ast.walk(fn) if hasattr(n, 'lineno')], key=lambda n: (n.lineno, n.col_offset))
+        tmpl = None
+        for n in nodes:
+            own = fc.owner(n.lineno)
+            if own is None or own[1] is not fn:
+                continue                                 # belongs to a nested function: handled there
+            if isinstance(n, ast.Assign) and len(n.targets) == 1 and isinstance(n.targets[0], ast.Name) \
+                    and n.targets[0].id == 'template' and isinstance(n.value, ast.Constant) and isinstance(n.value.value, str):
+                tmpl = n.value.value
+            if not isinstance(n, ast.Call):
+                continue
+            f = n.func
+            # --- templates.replace / replace_as_expression
+            if isinstance(f, ast.Attribute) and f.attr in ('replace', 'replace_as_expression') and isinstance(f.value, ast.Name) \
+                    and f.value.id == 'templates' and n.args:
+                a = n.args[0]
+                src = a.value if isinstance(a, ast.Constant) and isinstance(a.value, str) else (
+                    tmpl if isinstance(a, ast.Name) and a.id == 'template' else None)
+                if src is None:
+                    rows.add((base, q, '<template>', 'binds', 'other', ast.unparse(a)))
+                    continue
+                kws = {k.arg: k.value for k in n.keywords}
+                try:
+                    hard, binders = _template_positions(src, set(kws))
+                except SyntaxError:
+                    problems.append('%s:%d: template does not parse' % (rel, n.lineno))
+                    continue
+                for name, hows in hard.items():
+                    for how in hows:
+                        rows.add((base, q, name, how, 'hard', ''))
+                for p in binders:
+                    kind, text = fc.classify(kws[p], fn, n.lineno)
+                    if kind.startswith('hard:'):
+                        rows.add((base, q, kind[5:], 'binds', 'hard', 'placeholder ' + p))
+                    else:
+                        rows.add((base, q, p, 'binds', kind, text))
+            # --- parser.parse_expression / parse_str
+            elif isinstance(f, ast.Attribute) and f.attr in ('parse_expression', 'parse_str') and n.args:
+                a = n.args[0]
+                if isinstance(a, ast.Constant) and isinstance(a.value, str):
+                    try:
+                        for m in ast.walk(ast.parse(textwrap.dedent(a.value))):
+                            if isinstance(m, ast.Name):
+                                rows.add((base, q, m.id, 'binds' if isinstance(m.ctx, ast.Store) else 'reads', 'hard', ''))
+                    except SyntaxError:
+                        problems.append('%s:%d: parsed literal does not parse' % (rel, n.lineno))
+                else:
+                    kind, text = fc.classify(a, fn, n.lineno)
+                    rows.add((base, q, '<parsed>', 'reads', kind if not kind.startswith('hard:') else 'other', text))
+            # --- direct AST constructions of name-carrying nodes
+            elif isinstance(f, ast.Attribute) and isinstance(f.value, ast.Name) and f.value.id in ('ast', 'gast') and f.attr in _AST_CTORS:
+                if f.attr == 'Lambda':
+                    continue
+                arg = n.args[0] if n.args else None
+                for k in n.keywords:
+                    if k.arg in ('id', 'arg', 'name', 'names'):
+                        arg = k.value
+                if arg is None:
+                    continue
+                how = 'binds'
+                if f.attr == 'Name':
+                    ctx = n.args[1] if len(n.args) > 1 else next((k.value for k in n.keywords if k.arg == 'ctx'), None)
+                    how = 'reads' if ctx is not None and 'Load' in ast.unparse(ctx) else ('binds' if ctx is not None and 'Store' in ast.unparse(ctx) else 'reads')
+                kind, text = fc.classify(arg, fn, n.lineno)
+                if kind.startswith('hard:'):
+                    rows.add((base, q, kind[5:], how, 'hard', 'ast.' + f.attr))
+                else:
+                    rows.add((base, q, '<ast.%s>' % f.attr, how, kind, text))
+            # --- run-time code construction
+            elif isinstance(f, ast.Name) and f.id in ('exec', 'eval', 'compile'):
+                rows.add((base, q, '<%s>' % f.id, 'binds', 'other', ast.unparse(n)[:80]))
+    return sorted(rows)
+
+
 def _namer_shape(problems):
     """Shape facts about Namer.new_symbol."""
     tree = ast.parse(_read('malt/pyct/naming.py'))
@@ -247,7 +447,12 @@ def collect(problems):
     if not extra_locals:
         problems.append('api.py: keys of get_extra_locals not found')
     shapes = _namer_shape(problems)
-    return {'conv_sites': conv_sites, 'tr_sites': tr_sites, 'fixed': sorted(fixed), 'ntemplates': ntemplates,
+    intro = []
+    op_files = sorted(os.path.relpath(p, REPO) for p in glob.glob(os.path.join(REPO, 'malt', 'operators', '*.py')) if not p.endswith('_test.py'))
+    for rel in conv_rel + ['malt/pyct/transpiler.py', 'malt/pyct/templates.py', 'malt/core/converter.py',
+                           'malt/pyct/common_transformers/anf.py', 'malt/pyct/transformer.py'] + op_files:
+        intro += _intro_sites(rel, problems)
+    return {'intro_sites': intro, 'conv_sites': conv_sites, 'tr_sites': tr_sites, 'fixed': sorted(fixed), 'ntemplates': ntemplates,
             'prefix': prefix, 'lam': lam, 'extra_locals': extra_locals, 'shapes': shapes}
 
 
@@ -255,6 +460,7 @@ def gen_naming(problems):
     facts = collect(problems)
     conv_sites, tr_sites, fixed, ntemplates = facts['conv_sites'], facts['tr_sites'], facts['fixed'], facts['ntemplates']
     prefix, lam, extra_locals, shapes = facts['prefix'], facts['lam'], facts['extra_locals'], facts['shapes']
+    intro = facts['intro_sites']
 
     L = []
     L.append('/- GENERATED by tools/extract_naming.py from malt/converters/*.py, malt/pyct/transpiler.py, malt/pyct/naming.py and')
@@ -314,6 +520,36 @@ def gen_naming(problems):
     L.append('def extraLocals : List String := ' + _strs(extra_locals))
     L.append('/-- Identifiers written literally in the %d resolved templates (not placeholders): used by generated code without asking the namer. -/' % ntemplates)
     L.append('def templateFixedNames : List String := ' + _strs(sorted(fixed)))
+    L.append('')
+    L.append('/-- How a name-introducing site gets its name. -/')
+    L.append('inductive Via where')
+    L.append('  | namer        -- the result of a `new_symbol` call (directly, or through a local / a helper\'s argument)')
+    L.append('  | namerState   -- a namer result stored on transformer state / an annotation and read back')
+    L.append('  | passedIn     -- a helper\'s parameter whose callers could not all be resolved')
+    L.append('  | hard         -- an identifier written literally in the source (template text, parsed literal, ast.Name(\'x\'), string constant for a binder)')
+    L.append('  | other        -- anything else (user AST, user variable names, configuration, ...): `text` is the source expression')
+    L.append('  deriving DecidableEq, Repr')
+    L.append('')
+    L.append('inductive How where')
+    L.append('  | binds | reads')
+    L.append('  deriving DecidableEq, Repr')
+    L.append('')
+    L.append('structure Intro where')
+    L.append('  file : String')
+    L.append('  func : String')
+    L.append('  name : String     -- the identifier (via = hard), else the template placeholder / `<ast.Ctor>` / `<parsed>` / `<template>`')
+    L.append('  how : How')
+    L.append('  via : Via')
+    L.append('  text : String')
+    L.append('  deriving DecidableEq, Repr')
+    L.append('')
+    L.append('/-- EVERY site in malt/converters, pyct/transpiler.py, pyct/templates.py, core/converter.py, anf.py, pyct/transformer.py and')
+    L.append('malt/operators that puts an identifier into generated code: non-placeholder identifiers and binding-position placeholders of')
+    L.append('every `templates.replace*` call, identifiers of `parser.parse_expression/parse_str` arguments, direct `ast.Name/arg/Global/')
+    L.append('Nonlocal/alias/FunctionDef/ClassDef(...)` constructions, and `exec/eval/compile` calls. -/')
+    L.append('def introSites : List Intro := [')
+    L.append(',\n'.join('  ⟨%s, %s, %s, .%s, .%s, %s⟩' % (_lean_str(r[0]), _lean_str(r[1]), _lean_str(r[2]), r[3], r[4], _lean_str(r[5])) for r in intro))
+    L.append(']')
     L.append('')
     L.append('/-- Does `Namer.new_symbol` still have the statement structure the model `Malt.Naming.newSymbol` describes? -/')
     L.append('def namerShapes : List (String × Bool) := [')
